@@ -6,6 +6,7 @@ package nbhttp
 
 import (
 	"fmt"
+	"net"
 	"net/http"
 	"net/url"
 	"strings"
@@ -302,8 +303,9 @@ func (p *ServerProcessor) flushResponse(parser *Parser, res *Response) {
 				return
 			}
 			if req.Close {
-				// the data may still in the send queue
-				_ = conn.Close()
+				// the data may still be in the send queue: close after it
+				// has been written, or the end of the response is lost.
+				closeAfterFlush(conn, engine)
 			} else if parser.ParserCloser == nil {
 				_ = conn.SetReadDeadline(time.Now().Add(engine.KeepaliveTime))
 			}
@@ -311,6 +313,25 @@ func (p *ServerProcessor) flushResponse(parser *Parser, res *Response) {
 		releaseRequest(req, engine.RetainHTTPBody)
 		releaseResponse(res)
 	}
+}
+
+// closeAfterFlush closes conn after the response bytes that are still queued in
+// a non-blocking connection have been written; other connections write
+// synchronously and are closed at once.
+//
+//go:norace
+func closeAfterFlush(conn net.Conn, engine *Engine) {
+	c := conn
+	if hc, ok := c.(*Conn); ok && hc.Conn != nil {
+		c = hc.Conn
+	}
+	if cf, ok := c.(interface{ CloseAfterFlush() error }); ok {
+		// a peer that never reads must not keep the connection for ever.
+		_ = conn.SetReadDeadline(time.Now().Add(engine.KeepaliveTime))
+		_ = cf.CloseAfterFlush()
+		return
+	}
+	_ = conn.Close()
 }
 
 // Clean .
